@@ -78,6 +78,43 @@ def renamed_source(src: str, fnode: ast.AST) -> str | None:
     return "".join(lines)
 
 
+FLIP = {ast.Lt: ast.Gt, ast.Gt: ast.Lt, ast.LtE: ast.GtE, ast.GtE: ast.LtE, ast.Eq: ast.Eq, ast.NotEq: ast.NotEq}
+
+
+def flipped_source(src: str, fnode: ast.AST) -> str | None:
+    """src with every two-operand comparison of fnode written the other way
+    round (`a < b` -> `b > a`, `a == b` -> `b == a`): the same predicate."""
+    mod = ast.parse(src)
+    target = None
+    for n in ast.walk(mod):
+        if isinstance(n, type(fnode)) and n.lineno == fnode.lineno and n.name == fnode.name:
+            target = n
+    if target is None:
+        return None
+    changed = False
+
+    class T(ast.NodeTransformer):
+        def visit_Compare(self, n: ast.Compare):
+            nonlocal changed
+            self.generic_visit(n)
+            if len(n.ops) == 1 and type(n.ops[0]) in FLIP and not isinstance(n.left, ast.Constant) or \
+                    (len(n.ops) == 1 and type(n.ops[0]) in FLIP and not isinstance(n.comparators[0], ast.Constant)):
+                changed = True
+                return ast.Compare(left=n.comparators[0], ops=[FLIP[type(n.ops[0])]()], comparators=[n.left])
+            return n
+
+    T().visit(target)
+    if not changed:
+        return None
+    ast.fix_missing_locations(target)
+    text = ast.unparse(target)
+    first = min([target.lineno] + [d.lineno for d in target.decorator_list])
+    indent = " " * target.col_offset
+    lines = src.splitlines(keepends=True)
+    new = "".join(indent + l + "\n" for l in text.splitlines())
+    return "".join(lines[: first - 1]) + new + "".join(lines[target.end_lineno:])
+
+
 def _own_args(fnode):
     a = fnode.args
     return set(a.posonlyargs + a.args + a.kwonlyargs + ([a.vararg] if a.vararg else []) + ([a.kwarg] if a.kwarg else []))
@@ -85,6 +122,7 @@ def _own_args(fnode):
 
 _BASE = None
 _BASE_REPORTS = None
+MODE = "flip" if "--flip" in sys.argv else "rename"
 
 
 def _init():
@@ -97,7 +135,7 @@ def work(job):
     modname, qual = job
     mi = _BASE.module(modname)
     fi = _BASE.prog.functions[qual]
-    new = renamed_source(mi.source, fi.node)
+    new = (flipped_source if MODE == "flip" else renamed_source)(mi.source, fi.node)
     if new is None:
         return qual, None
     try:
@@ -110,6 +148,7 @@ def work(job):
 
 def main():
     args = [a for i, a in enumerate(sys.argv[1:], 1) if not a.startswith("-") and sys.argv[i - 1] not in ("--only", "-j")]
+    print(f"mode: {MODE}")
     jobs_n = int(sys.argv[sys.argv.index("-j") + 1]) if "-j" in sys.argv else 14
     if "-j" in sys.argv:
         args = [a for a in args if a != sys.argv[sys.argv.index("-j") + 1]]
@@ -139,7 +178,7 @@ def main():
         for qual, got in pool.imap_unordered(work, jobs, chunksize=4):
             if got:
                 bad += 1
-                print(f"FALSE ALARM renaming the locals of {qual}:")
+                print(f"FALSE ALARM {'flipping the comparisons' if MODE == 'flip' else 'renaming the locals'} of {qual}:")
                 for g in got[:6]:
                     print("     ", g)
                 sys.stdout.flush()
